@@ -6,36 +6,45 @@
   stored end of a row and below the last row. `C04_paint g r0 r1 c0 c1 block` is the picture the property asks
   for: the region shows the block rows padded with blanks, every other cell is `g`.
 
-  What is proved (model = Model/FSArray.lean, tied to the code per run):
-    C04_assign           a block that fits (right row count, no row longer than the region): succeeds, the new grid is
-                         `C04_paint`, height = max old r1, no row wider than the array         [full strength]
-    C04_width_invariant  EVERY a[r, c] = value (any subscripts, any value, any outcome) keeps all rows <= width
-    C04_error_unchanged  EVERY a[r, c] = value that raises leaves every cell as it was
-    C04_reject_partial   ill-fitting blocks raise and change nothing - except the D19 footprint
+  What is proved (model = Model/FSArray.lean + Model/SpliceOp.lean, tied to the code per run; `md` is the parser
+  model's CPython digit-limit parameter, irrelevant here):
+    C04_init               FSArray(n, w, *args): n blank rows, WF
+    C04_assign_partial     a block that fits (right row count, no row longer than the region, str rows ESC-free):
+                           succeeds, the new grid is `C04_paint`, height = max old r1, no row wider than the array
+    C04_width_invariant    EVERY a[r, c] = value (any subscripts, any value, any outcome) keeps all rows <= width
+    C04_error_unchanged    EVERY a[r, c] = value that raises leaves every cell as it was
+    C04_height             EVERY a[r0:r1, c] = value leaves max(height, r1) rows - also when it raises (the code
+                           extends before validating; "changes no cell" is read on `grid`)
+    C04_reject_partial     ill-fitting blocks raise and change nothing - except the D19 footprint
+    C04_int_subscript      a[r, c] = v is the region r:r+1, c:c+1; C04_assign_int_partial / C04_reject_int_partial /
+                           C04_int_col_out_of_range
     C04_empty_region_noop  a region of no rows or no columns (outside the statement): no error, no cell changes
-    C04_history          induction over assignment sequences
-    C04_read / C04_read_cells / C04_read_row, C04_fsarray / _reject / _auto
-  The full statement `C04_full_statement` is refuted for the model (= the code) by `C04_D19_witness`.
+    C04_history            induction over assignment sequences; per-step hypotheses are predicates on the inputs
+    C04_read / C04_read_cells / C04_read_row / C04_read_rows, C04_fsarray_partial / _reject / _auto_partial
+  The full statement `C04_full_statement` (every block, plain-str rows verbatim and unformatted) is refuted for the
+  model (= the code) by `C04_D19_witness` (over-long row spilling into blank cells) and `C04_D27_witness` (a str row
+  containing an SGR sequence is parsed and measured raw; `C04_D27_fsarray` for `fsarray`).
 
-  Hypotheses (the statement's domain): row subscripts `r0:r1` with explicit `0 <= r0 <= r1` (`a[r, c]` with ints is the
-  region `r:r+1, c:c+1`; `normalizeSlice_int`-style facts in C06); columns `0 <= c0 <= c1 <= width` (the text is silent
-  beyond the width); for the rejection clause the region is NON-EMPTY (`r0 < r1`, `c0 < c1`): a zero-area region has
-  no cells a block could be composited into, the statement requires no error there (the code returns early, as
-  numpy-style semantics do) - only "no cell changes", which `C04_empty_region_noop` proves; a `str` value only for regions of at most one column (the code rejects it otherwise);
-  `str` rows are ESC-free (carried as `fmtstr(s)` = one unformatted run, C17).
+  Hypotheses (the statement's domain): row subscripts `r0:r1` with explicit `0 <= r0 <= r1`, or ints; columns
+  `0 <= c0 <= c1 <= width` (the text is silent beyond the width); for the rejection clause the region is NON-EMPTY
+  (`r0 < r1`, `c0 < c1`): a zero-area region has no cells a block could be composited into, the statement requires
+  no error there (the code returns early, as numpy-style semantics do) - only "no cell changes", which
+  `C04_empty_region_noop` proves; a `str` value only for regions of at most one column (the code rejects it
+  otherwise). `_partial` theorems carry `Operand.EscFree` for plain-str rows (complement of D27's footprint) and,
+  for rejection, the complement of D19's footprint.
 -/
 import Curtsies.Model.FSArray
 import Curtsies.Proofs.FSArray
 namespace Curtsies
-open FSArray
+open FSArray Splice
 
 def C04_paint (g : Nat → Nat → Cell) (r0 r1 c0 c1 : Nat) (block : List (List Cell)) : Nat → Nat → Cell :=
   fun r c => if r0 ≤ r ∧ r < r1 ∧ c0 ≤ c ∧ c < c1 then padCell ((block[r - r0]?).getD []) (c - c0) else g r c
 
 /-- "never makes a row wider than the array": for EVERY subscript and value, whatever the outcome. -/
-theorem C04_width_invariant (a : FSArr) (r c : Index) (value : Block) (hw : WF a) :
-    WF (a.setRegion r c value).1 ∧ (a.setRegion r c value).1.numColumns = a.numColumns := by
-  rcases setRegion_cases a r c value with h | ⟨h, hh⟩ | ⟨rs, cs, new, _, hnew, hst⟩
+theorem C04_width_invariant (md : Nat) (a : FSArr) (r c : Index) (value : Block) (hw : WF a) :
+    WF (a.setRegion md r c value).1 ∧ (a.setRegion md r c value).1.numColumns = a.numColumns := by
+  rcases setRegion_cases md a r c value with h | ⟨h, hh⟩ | ⟨rs, cs, new, _, hnew, hst⟩
   · rw [h]; exact ⟨hw, rfl⟩
   · rw [hh]; exact ⟨WF_extended a h hw, rfl⟩
   · rw [hst]
@@ -45,15 +54,15 @@ theorem C04_width_invariant (a : FSArr) (r c : Index) (value : Block) (hw : WF a
     simp only [List.mem_append] at hf
     rcases hf with (hf | hf) | hf
     · exact hwe f (List.mem_of_mem_take hf)
-    · exact setRows_len_le _ _ _ _ _ _ hnew f hf
+    · exact setRows_len_le _ _ _ _ _ _ _ hnew f hf
     · exact hwe f (List.mem_of_mem_drop hf)
 
 /-- "raises an error and changes no cell": for EVERY subscript and value, an exception leaves every cell as it
     was (the rows may have been extended with blank rows first; they show blank, as the cells below the array did). -/
-theorem C04_error_unchanged (a : FSArr) (r c : Index) (value : Block) (e : PyErr)
-    (he : (a.setRegion r c value).2 = .error e) (r' c' : Nat) :
-    grid (a.setRegion r c value).1 r' c' = grid a r' c' := by
-  rcases setRegion_error a r c value e he with h | ⟨h, hh⟩
+theorem C04_error_unchanged (md : Nat) (a : FSArr) (r c : Index) (value : Block) (e : PyErr)
+    (he : (a.setRegion md r c value).2 = .error e) (r' c' : Nat) :
+    grid (a.setRegion md r c value).1 r' c' = grid a r' c' := by
+  rcases setRegion_error md a r c value e he with h | ⟨h, hh⟩
   · rw [h]
   · rw [hh, grid_extended]
 
@@ -62,19 +71,19 @@ theorem C04_error_unchanged (a : FSArr) (r c : Index) (value : Block) (e : PyErr
 /-- Region assignment with a block that fits: `a[r0:r1, c0:c1] = block` succeeds; the region shows the block rows
     padded with blanks and every other cell is as it was (`C04_paint`); the array has grown to `max height r1`
     rows; no row is wider than the array; the width is unchanged. -/
-theorem C04_assign (a : FSArr) (r0 r1 c0 c1 : Nat) (value : Block)
+theorem C04_assign_partial (md : Nat) (a : FSArr) (r0 r1 c0 c1 : Nat) (value : Block)
     (hw : WF a) (hr : r0 ≤ r1) (hc : c0 ≤ c1) (hW : c1 ≤ a.numColumns)
-    (hrows : value.items.length = r1 - r0) (hfit : ∀ it ∈ value.items, len it.2 ≤ c1 - c0)
-    (hstr : ¬ (value.isStr = true ∧ c1 - c0 > 1)) :
-    ∃ a', a.setRegion (.slice (some (r0 : Int)) (some (r1 : Int))) (.slice (some (c0 : Int)) (some (c1 : Int))) value
+    (hrows : value.items.length = r1 - r0) (hfit : ∀ it ∈ value.items, it.rawLen ≤ c1 - c0)
+    (hstr : ¬ (value.isStr = true ∧ c1 - c0 > 1)) (hesc : ∀ it ∈ value.items, it.EscFree) :
+    ∃ a', a.setRegion md (.slice (some (r0 : Int)) (some (r1 : Int))) (.slice (some (c0 : Int)) (some (c1 : Int))) value
         = (a', .ok ()) ∧
-      (∀ r c, grid a' r c = C04_paint (grid a) r0 r1 c0 c1 (value.items.map fun it => cells it.2) r c) ∧
+      (∀ r c, grid a' r c = C04_paint (grid a) r0 r1 c0 c1 (value.items.map Operand.cells) r c) ∧
       a'.rows.length = max a.rows.length r1 ∧ WF a' ∧ a'.numColumns = a.numColumns := by
-  have hinv := C04_width_invariant a (.slice (some (r0 : Int)) (some (r1 : Int)))
+  have hinv := C04_width_invariant md a (.slice (some (r0 : Int)) (some (r1 : Int)))
     (.slice (some (c0 : Int)) (some (c1 : Int))) value hw
-  suffices key : ∃ a', a.setRegion (.slice (some (r0 : Int)) (some (r1 : Int)))
+  suffices key : ∃ a', a.setRegion md (.slice (some (r0 : Int)) (some (r1 : Int)))
         (.slice (some (c0 : Int)) (some (c1 : Int))) value = (a', .ok ()) ∧
-      (∀ r c, grid a' r c = C04_paint (grid a) r0 r1 c0 c1 (value.items.map fun it => cells it.2) r c) ∧
+      (∀ r c, grid a' r c = C04_paint (grid a) r0 r1 c0 c1 (value.items.map Operand.cells) r c) ∧
       a'.rows.length = max a.rows.length r1 by
     obtain ⟨a', heq, hg, hl⟩ := key
     rw [heq] at hinv
@@ -103,15 +112,13 @@ theorem C04_assign (a : FSArr) (r0 r1 c0 c1 : Nat) (value : Block)
     rw [if_neg h2, if_neg h3]
     have hlen1 : r1 ≤ (a.extended r1).rows.length := by rw [extended_length]; omega
     have hsl := listSlice_length (a.extended r1).rows r0 r1 hr hlen1
-    obtain ⟨new, hnew, hnl, hcell⟩ := setRows_ok c0 c1 a.numColumns hc hW
-      (listSlice (a.extended r1).rows (r0, r1)) (value.items.map (·.2))
+    obtain ⟨new, hnew, hnl, hcell⟩ := setRows_ok md c0 c1 a.numColumns hc hW
+      (listSlice (a.extended r1).rows (r0, r1)) value.items
       (fun f hf => WF_extended a r1 hw f (by
         simp only [listSlice] at hf
         exact List.mem_of_mem_take (List.mem_of_mem_drop hf)))
-      (fun v hv => by
-        obtain ⟨it, hit, rfl⟩ := List.mem_map.mp hv
-        exact hfit it hit)
-      (by rw [hsl, List.length_map, hrows])
+      hfit (fun v hv => NoEsc_of_EscFree v (hesc v hv))
+      (by rw [hsl, hrows])
     simp only [hnew]
     refine ⟨_, rfl, ?_, ?_⟩
     · intro r c
@@ -122,14 +129,14 @@ theorem C04_assign (a : FSArr) (r0 r1 c0 c1 : Nat) (value : Block)
       · rw [if_pos hin]
         have hlt : r < (a.extended r1).rows.length := by omega
         have hi : r - r0 < value.items.length := by omega
-        obtain ⟨rr, hrr, hcr⟩ := hcell (r - r0) ((a.extended r1).rows[r]) (value.items[r - r0]).2
+        obtain ⟨rr, hrr, hcr⟩ := hcell (r - r0) ((a.extended r1).rows[r]) (value.items[r - r0])
           (by rw [listSlice_get _ _ _ _ (by omega)]
               have : r0 + (r - r0) = r := by omega
               rw [this, List.getElem?_eq_getElem hlt])
-          (by rw [List.getElem?_map, List.getElem?_eq_getElem hi]; rfl)
+          (List.getElem?_eq_getElem hi)
         rw [hrr]
         simp only [rowCell, hcr]
-        rw [padCell_setCells _ _ _ _ hc (by rw [cells_length]; exact hfit _ (List.getElem_mem hi))]
+        rw [padCell_setCells _ _ _ _ hc (by rw [cells_rawLen]; exact hfit _ (List.getElem_mem hi))]
         have hg : grid a r c = padCell (cells (a.extended r1).rows[r]) c := by
           rw [← grid_extended a r1 r c]
           simp only [grid, List.getElem?_eq_getElem hlt, rowCell]
@@ -155,19 +162,19 @@ theorem C04_assign (a : FSArr) (r0 r1 c0 c1 : Nat) (value : Block)
     into existing content) or `c0 + len` exceeds the array's width (`ValueError`). Missing from the full statement
     (`C04_full_statement`): over-long rows meeting an existing row that ends at or before `c1` while the result
     fits the width (finding D19, `C04_D19_witness`). -/
-theorem C04_reject_partial (a : FSArr) (r0 r1 c0 c1 : Nat) (value : Block)
+theorem C04_reject_partial (md : Nat) (a : FSArr) (r0 r1 c0 c1 : Nat) (value : Block)
     (hr : r0 < r1) (hc : c0 < c1)
     (hbad : value.items.length ≠ r1 - r0 ∨
-      ∃ (i : Nat) (it : Bool × FmtStr), value.items[i]? = some it ∧ len it.2 > c1 - c0 ∧
-        (rowLen a (r0 + i) > c1 ∨ c0 + len it.2 > a.numColumns)) :
-    ∃ e, (a.setRegion (.slice (some (r0 : Int)) (some (r1 : Int))) (.slice (some (c0 : Int)) (some (c1 : Int))) value).2
+      ∃ (i : Nat) (it : Operand), value.items[i]? = some it ∧ it.rawLen > c1 - c0 ∧ it.EscFree ∧
+        (rowLen a (r0 + i) > c1 ∨ c0 + it.rawLen > a.numColumns)) :
+    ∃ e, (a.setRegion md (.slice (some (r0 : Int)) (some (r1 : Int))) (.slice (some (c0 : Int)) (some (c1 : Int))) value).2
         = .error e ∧
-      ∀ r c, grid (a.setRegion (.slice (some (r0 : Int)) (some (r1 : Int)))
+      ∀ r c, grid (a.setRegion md (.slice (some (r0 : Int)) (some (r1 : Int)))
         (.slice (some (c0 : Int)) (some (c1 : Int))) value).1 r c = grid a r c := by
-  suffices key : ∃ e, (a.setRegion (.slice (some (r0 : Int)) (some (r1 : Int)))
+  suffices key : ∃ e, (a.setRegion md (.slice (some (r0 : Int)) (some (r1 : Int)))
       (.slice (some (c0 : Int)) (some (c1 : Int))) value).2 = .error e by
     obtain ⟨e, he⟩ := key
-    exact ⟨e, he, C04_error_unchanged a _ _ value e he⟩
+    exact ⟨e, he, C04_error_unchanged md a _ _ value e he⟩
   unfold FSArr.setRegion
   rw [normalizeSlice_nat, normalizeSlice_nat]
   simp only []
@@ -179,7 +186,7 @@ theorem C04_reject_partial (a : FSArr) (r0 r1 c0 c1 : Nat) (value : Block)
     · exact ⟨_, rfl⟩
     · rename_i hcount
       simp only [slicesize, Decidable.not_not] at hcount
-      rcases hbad with hbad | ⟨i, it, hit, hlen, hwhy⟩
+      rcases hbad with hbad | ⟨i, it, hit, hlen, hitesc, hwhy⟩
       · omega
       · have hi : i < value.items.length := by
           rcases Nat.lt_or_ge i value.items.length with h | h
@@ -192,10 +199,10 @@ theorem C04_reject_partial (a : FSArr) (r0 r1 c0 c1 : Nat) (value : Block)
         have hf : (listSlice (a.extended r1).rows (r0, r1))[i]? = some ((a.extended r1).rows[r0 + i]) := by
           rw [listSlice_get _ _ _ _ (by omega), List.getElem?_eq_getElem hlt]
         have hfl := extended_get a r1 (r0 + i) _ (List.getElem?_eq_getElem hlt)
-        obtain ⟨e1, he1⟩ := setslice_reject ((a.extended r1).rows[r0 + i]) it.2 c0 c1 a.numColumns
-          (Nat.le_of_lt hc) hlen (by rw [hfl]; exact hwhy)
-        obtain ⟨e', he'⟩ := setRows_error c0 c1 a.numColumns (listSlice (a.extended r1).rows (r0, r1))
-          (value.items.map (·.2)) i _ it.2 e1 hf (by rw [List.getElem?_map, hit]; rfl) he1
+        obtain ⟨e1, he1⟩ := setsliceOp_reject md ((a.extended r1).rows[r0 + i]) it c0 c1 a.numColumns
+          (Nat.le_of_lt hc) hlen (NoEsc_of_EscFree it hitesc) (by rw [hfl]; exact hwhy)
+        obtain ⟨e', he'⟩ := setRows_error md c0 c1 a.numColumns (listSlice (a.extended r1).rows (r0, r1))
+          value.items i _ it e1 hf hit he1
         simp only [he']
         exact ⟨_, rfl⟩
 
@@ -204,22 +211,22 @@ theorem C04_reject_partial (a : FSArr) (r0 r1 c0 c1 : Nat) (value : Block)
     and changes nothing. It is FALSE for the code as it is (`C04_D19_witness`); what holds is `C04_assign` (the first
     half, in full), `C04_width_invariant` and `C04_error_unchanged` (for every call), and `C04_reject_partial`. -/
 def C04_full_statement : Prop :=
-  ∀ (a : FSArr) (r0 r1 c0 c1 : Nat) (value : Block), WF a → r0 ≤ r1 → c0 ≤ c1 → c1 ≤ a.numColumns →
+  ∀ (md : Nat) (a : FSArr) (r0 r1 c0 c1 : Nat) (value : Block), WF a → r0 ≤ r1 → c0 ≤ c1 → c1 ≤ a.numColumns →
     ¬ (value.isStr = true ∧ c1 - c0 > 1) →
-    let res := a.setRegion (.slice (some (r0 : Int)) (some (r1 : Int))) (.slice (some (c0 : Int)) (some (c1 : Int))) value
-    let fits := value.items.length = r1 - r0 ∧ ∀ it ∈ value.items, len it.2 ≤ c1 - c0
+    let res := a.setRegion md (.slice (some (r0 : Int)) (some (r1 : Int))) (.slice (some (c0 : Int)) (some (c1 : Int))) value
+    let fits := value.items.length = r1 - r0 ∧ ∀ it ∈ value.items, it.cells.length ≤ c1 - c0
     (fits → res.2 = .ok () ∧
-      (∀ r c, grid res.1 r c = C04_paint (grid a) r0 r1 c0 c1 (value.items.map fun it => cells it.2) r c) ∧
+      (∀ r c, grid res.1 r c = C04_paint (grid a) r0 r1 c0 c1 (value.items.map Operand.cells) r c) ∧
       res.1.rows.length = max a.rows.length r1 ∧ WF res.1) ∧
     (¬ fits → r0 < r1 → c0 < c1 → (∃ e, res.2 = .error e) ∧ ∀ r c, grid res.1 r c = grid a r c)
 
 /-- D19 at a concrete point: blank 1x3 array, `a[0:1, 0:1] = ['xz']` succeeds and cell (0,1), outside the region,
     changes from blank to 'z'. -/
 theorem C04_D19_cell :
-    ((FSArr.init 1 3 {}).setRegion (.slice (some 0) (some 1)) (.slice (some 0) (some 1))
-        ⟨false, [(true, [⟨['x', 'z'], {}⟩])]⟩).2 = .ok () ∧
-    grid ((FSArr.init 1 3 {}).setRegion (.slice (some 0) (some 1)) (.slice (some 0) (some 1))
-        ⟨false, [(true, [⟨['x', 'z'], {}⟩])]⟩).1 0 1 = ('z', {}) ∧
+    ((FSArr.init 1 3 {}).setRegion 4300 (.slice (some 0) (some 1)) (.slice (some 0) (some 1))
+        ⟨false, [.str ['x', 'z']]⟩).2 = .ok () ∧
+    grid ((FSArr.init 1 3 {}).setRegion 4300 (.slice (some 0) (some 1)) (.slice (some 0) (some 1))
+        ⟨false, [.str ['x', 'z']]⟩).1 0 1 = ('z', {}) ∧
     grid (FSArr.init 1 3 {}) 0 1 = blankCell := by decide +kernel
 
 /-- The model violates the full statement at that point. -/
@@ -229,7 +236,7 @@ theorem C04_D19_witness : ¬ C04_full_statement := by
     intro f hf
     simp only [FSArr.init, List.mem_replicate] at hf
     rw [hf.2]; decide
-  have := (h (FSArr.init 1 3 {}) 0 1 0 1 ⟨false, [(true, [⟨['x', 'z'], {}⟩])]⟩ hwf (by decide) (by decide)
+  have := (h 4300 (FSArr.init 1 3 {}) 0 1 0 1 ⟨false, [.str ['x', 'z']]⟩ hwf (by decide) (by decide)
     (by decide) (by decide)).2 (by decide) (by decide) (by decide)
   obtain ⟨⟨e, he⟩, _⟩ := this
   have hok := C04_D19_cell.1
@@ -237,13 +244,40 @@ theorem C04_D19_witness : ¬ C04_full_statement := by
   rw [hok] at he
   cases he
 
+/-- D27 at a concrete point: blank 1x12 array, `a[0:1, 0:12] = ['\x1b[31mxy\x1b[39m']` - a plain str of twelve
+    characters for a region of twelve columns - succeeds and cell (0,0) shows a RED 'x', not the str's first character
+    (ESC) unformatted: `setslice_with_length` measures the raw str, `splice` parses it. -/
+theorem C04_D27_cell :
+    ((FSArr.init 1 12 {}).setRegion 4300 (.slice (some ((0 : Nat) : Int)) (some ((1 : Nat) : Int)))
+        (.slice (some ((0 : Nat) : Int)) (some ((12 : Nat) : Int)))
+        ⟨false, [.str [ESC, '[', '3', '1', 'm', 'x', 'y', ESC, '[', '3', '9', 'm']]⟩).2 = .ok () ∧
+    grid ((FSArr.init 1 12 {}).setRegion 4300 (.slice (some ((0 : Nat) : Int)) (some ((1 : Nat) : Int)))
+        (.slice (some ((0 : Nat) : Int)) (some ((12 : Nat) : Int)))
+        ⟨false, [.str [ESC, '[', '3', '1', 'm', 'x', 'y', ESC, '[', '3', '9', 'm']]⟩).1 0 0
+      = ('x', { fg := some 1 }) := by decide +kernel
+
+/-- The model violates the full statement at that point too. -/
+theorem C04_D27_witness : ¬ C04_full_statement := by
+  intro h
+  have hwf : WF (FSArr.init 1 12 {}) := by
+    intro f hf
+    simp only [FSArr.init, List.mem_replicate] at hf
+    rw [hf.2]; decide
+  have := (h 4300 (FSArr.init 1 12 {}) 0 1 0 12
+    ⟨false, [.str [ESC, '[', '3', '1', 'm', 'x', 'y', ESC, '[', '3', '9', 'm']]⟩ hwf (by decide) (by decide)
+    (by decide) (by decide)).1 (by decide)
+  have h2 := this.2.1 0 0
+  rw [C04_D27_cell.2] at h2
+  revert h2
+  decide +kernel
+
 /-- Regions without cells (`r0 = r1` or `c0 = c1`) are outside the statement: the code returns before looking at
     the value (after extending the rows), whatever the block is. No error is required there, only that no cell
     changes - which holds for every value. -/
-theorem C04_empty_region_noop (a : FSArr) (r0 r1 c0 c1 : Nat) (value : Block) (h : r0 = r1 ∨ c0 = c1) :
-    (a.setRegion (.slice (some (r0 : Int)) (some (r1 : Int))) (.slice (some (c0 : Int)) (some (c1 : Int))) value).2
+theorem C04_empty_region_noop (md : Nat) (a : FSArr) (r0 r1 c0 c1 : Nat) (value : Block) (h : r0 = r1 ∨ c0 = c1) :
+    (a.setRegion md (.slice (some (r0 : Int)) (some (r1 : Int))) (.slice (some (c0 : Int)) (some (c1 : Int))) value).2
         = .ok () ∧
-      ∀ r c, grid (a.setRegion (.slice (some (r0 : Int)) (some (r1 : Int)))
+      ∀ r c, grid (a.setRegion md (.slice (some (r0 : Int)) (some (r1 : Int)))
         (.slice (some (c0 : Int)) (some (c1 : Int))) value).1 r c = grid a r c := by
   unfold FSArr.setRegion
   rw [normalizeSlice_nat, normalizeSlice_nat]
@@ -252,17 +286,17 @@ theorem C04_empty_region_noop (a : FSArr) (r0 r1 c0 c1 : Nat) (value : Block) (h
   rw [if_pos he]
   exact ⟨rfl, fun r c => grid_extended a r1 r c⟩
 
-/-- Non-vacuity of `C04_assign` / `C04_reject_partial`: a 2x3 array whose first row is 'abc', then
+/-- Non-vacuity of `C04_assign_partial` / `C04_reject_partial`: a 2x3 array whose first row is 'abc', then
     `a[0:2, 1:2] = [bold 'X', '']`: both rows fit; and `a[0:1, 0:1] = ['xz']` on that array is rejected. -/
 example :
     let a : FSArr := ⟨[[⟨['a', 'b', 'c'], {}⟩], blankRow {}], 3, {}⟩
-    (a.setRegion (.slice (some 0) (some 2)) (.slice (some 1) (some 2))
-        ⟨false, [(false, [⟨['X'], { bold := some true }⟩]), (true, [⟨[], {}⟩])]⟩).2 = .ok () ∧
-    (a.setRegion (.slice (some 0) (some 2)) (.slice (some 1) (some 2))
-        ⟨false, [(false, [⟨['X'], { bold := some true }⟩]), (true, [⟨[], {}⟩])]⟩).1.rows.map cells
+    (a.setRegion 4300 (.slice (some 0) (some 2)) (.slice (some 1) (some 2))
+        ⟨false, [.fmt [⟨['X'], { bold := some true }⟩], .str []]⟩).2 = .ok () ∧
+    (a.setRegion 4300 (.slice (some 0) (some 2)) (.slice (some 1) (some 2))
+        ⟨false, [.fmt [⟨['X'], { bold := some true }⟩], .str []]⟩).1.rows.map cells
       = [[('a', {}), ('X', { bold := some true }), ('c', {})], [(' ', {})]] ∧
-    (a.setRegion (.slice (some 0) (some 1)) (.slice (some 0) (some 1))
-        ⟨false, [(true, [⟨['x', 'z'], {}⟩])]⟩).2 = .error .assertionError := by decide +kernel
+    (a.setRegion 4300 (.slice (some 0) (some 1)) (.slice (some 0) (some 1))
+        ⟨false, [.str ['x', 'z']]⟩).2 = .error .assertionError := by decide +kernel
 
 /-- Reading a region back: `a[r0:r1, c0:c1]` returns one FmtStr per stored row `r0 ≤ r < min r1 height`, whose cells
     are exactly the stored cells of that row in columns `c0 ≤ c < c1` (rows shorter than `c1` are not padded:
@@ -313,13 +347,16 @@ theorem C04_read_row (a : FSArr) (i : Nat) :
   · have : ((i : Int) < 0 ∨ (i : Int) ≥ (a.rows.length : Int)) := by omega
     rw [if_pos this, List.getElem?_eq_none (by omega)]
 
-/-- `fsarray(strings, width)` when every string fits: an array of `len(strings)` rows and `width` columns whose
-    rows show exactly the strings (`str` items come converted by `fmtstr(s, *args)`). -/
-theorem C04_fsarray (strings : List FmtStr) (w : Nat) (atts : Atts) (hfit : ∀ s ∈ strings, len s ≤ w) :
-    ∃ arr, fsarray strings (some w) atts = .ok arr ∧ arr.numColumns = w ∧
-      arr.rows.map cells = strings.map cells ∧ WF arr := by
-  obtain ⟨rows, h1, h2⟩ := fsarrayRows_ok w atts strings strings.length rfl hfit
-  have hany : strings.any (fun s => decide (len s > w)) = false := by
+/-- `fsarray(strings, width, *args)` when every item fits and no plain-str item contains `ESC [` (complement of
+    finding D27): an array of `len(strings)` rows and `width` columns whose rows show exactly the items - a FmtStr
+    as it is, a plain str with the formatting the extra arguments denote (`itemCells`). -/
+theorem C04_fsarray_partial (md : Nat) (strings : List Operand) (w : Nat) (atts : Atts)
+    (hfit : ∀ s ∈ strings, s.rawLen ≤ w) (hesc : ∀ s ∈ strings, s.EscFree) :
+    ∃ arr, fsarray md strings (some w) atts = .ok arr ∧ arr.numColumns = w ∧
+      arr.rows.map cells = strings.map (itemCells atts) ∧ WF arr := by
+  obtain ⟨rows, h1, h2⟩ := fsarrayRows_ok md w atts strings strings.length rfl
+    (fun s hs => NoEsc_of_EscFree s (hesc s hs)) hfit
+  have hany : strings.any (fun s => decide (s.rawLen > w)) = false := by
     simp only [List.any_eq_false, decide_eq_true_eq]; intro s hs; have := hfit s hs; omega
   refine ⟨{ FSArr.init strings.length w atts with rows := rows }, ?_, rfl, h2, ?_⟩
   · simp [fsarray, hany, FSArr.init, h1]
@@ -328,21 +365,27 @@ theorem C04_fsarray (strings : List FmtStr) (w : Nat) (atts : Atts) (hfit : ∀ 
     have hm : cells f ∈ rows.map cells := List.mem_map_of_mem hf
     rw [h2] at hm
     obtain ⟨s, hs, hsc⟩ := List.mem_map.mp hm
-    have : len f = len s := by rw [← cells_length, ← cells_length, hsc]
+    have : len f = s.rawLen := by
+      rw [← cells_length, ← hsc]
+      cases s with
+      | str t => simp [itemCells, Operand.rawLen]
+      | fmt g => simp only [itemCells, Operand.rawLen]; exact cells_length g
     rw [this]; exact hfit s hs
 
-/-- `fsarray(strings, width)` with a string longer than `width` raises ValueError. -/
-theorem C04_fsarray_reject (strings : List FmtStr) (w : Nat) (atts : Atts) (s : FmtStr) (hs : s ∈ strings)
-    (hlong : len s > w) : fsarray strings (some w) atts = .error .valueError := by
-  have hany : strings.any (fun s => decide (len s > w)) = true := by
+/-- `fsarray(strings, width)` with an item longer than `width` raises ValueError (for a str: its raw length). -/
+theorem C04_fsarray_reject (md : Nat) (strings : List Operand) (w : Nat) (atts : Atts) (s : Operand)
+    (hs : s ∈ strings) (hlong : s.rawLen > w) : fsarray md strings (some w) atts = .error .valueError := by
+  have hany : strings.any (fun s => decide (s.rawLen > w)) = true := by
     simp only [List.any_eq_true, decide_eq_true_eq]; exact ⟨s, hs, hlong⟩
   simp [fsarray, hany]
 
-/-- `fsarray(strings)` without a width: the width is the longest string. -/
-theorem C04_fsarray_auto (strings : List FmtStr) (atts : Atts) :
-    ∃ arr, fsarray strings none atts = .ok arr ∧ arr.rows.map cells = strings.map cells ∧ WF arr ∧
-      ∀ s ∈ strings, len s ≤ arr.numColumns := by
-  have hmax : ∀ (l : List Nat) (init : Nat), init ≤ l.foldl max init ∧ ∀ x ∈ l, x ≤ l.foldl max init := by
+/-- `fsarray(strings)` without a width: the width is the longest item. -/
+theorem C04_fsarray_auto_partial (md : Nat) (strings : List Operand) (atts : Atts) (hesc : ∀ s ∈ strings, s.EscFree) :
+    ∃ arr, fsarray md strings none atts = .ok arr ∧ arr.rows.map cells = strings.map (itemCells atts) ∧ WF arr ∧
+      (∀ s ∈ strings, s.rawLen ≤ arr.numColumns) ∧
+      (strings ≠ [] → ∃ s ∈ strings, s.rawLen = arr.numColumns) ∧ (strings = [] → arr.numColumns = 0) := by
+  have hmax : ∀ (l : List Nat) (init : Nat), init ≤ l.foldl max init ∧ (∀ x ∈ l, x ≤ l.foldl max init) ∧
+      (l.foldl max init = init ∨ l.foldl max init ∈ l) := by
     intro l
     induction l with
     | nil => intro init; simp
@@ -350,18 +393,155 @@ theorem C04_fsarray_auto (strings : List FmtStr) (atts : Atts) :
       intro init
       have := ih (max init y)
       simp only [List.foldl_cons, List.mem_cons]
-      refine ⟨by omega, ?_⟩
-      rintro x (rfl | hx)
-      · omega
-      · exact this.2 x hx
-  have hfit : ∀ s ∈ strings, len s ≤ (strings.map len).foldl max 0 :=
-    fun s hs => (hmax (strings.map len) 0).2 _ (List.mem_map_of_mem hs)
-  obtain ⟨arr, h1, h2, h3, h4⟩ := C04_fsarray strings _ atts hfit
-  refine ⟨arr, ?_, h3, h4, by rw [h2]; exact hfit⟩
-  have hany : strings.any (fun s => decide (len s > (strings.map len).foldl max 0)) = false := by
+      refine ⟨by omega, ?_, ?_⟩
+      · rintro x (rfl | hx)
+        · omega
+        · exact this.2.1 x hx
+      · rcases this.2.2 with h | h
+        · rw [h]
+          rcases Nat.le_total init y with h' | h'
+          · right; left; omega
+          · left; omega
+        · right; right; exact h
+  have hm := hmax (strings.map Operand.rawLen) 0
+  have hfit : ∀ s ∈ strings, s.rawLen ≤ (strings.map Operand.rawLen).foldl max 0 :=
+    fun s hs => hm.2.1 _ (List.mem_map_of_mem hs)
+  obtain ⟨arr, h1, h2, h3, h4⟩ := C04_fsarray_partial md strings _ atts hfit hesc
+  have hany : strings.any (fun s => decide (s.rawLen > (strings.map Operand.rawLen).foldl max 0)) = false := by
     simp only [List.any_eq_false, decide_eq_true_eq]; intro s hs; have := hfit s hs; omega
-  simp only [fsarray, hany] at h1 ⊢
-  exact h1
+  refine ⟨arr, ?_, h3, h4, by rw [h2]; exact hfit, ?_, ?_⟩
+  · simp only [fsarray, hany] at h1 ⊢
+    exact h1
+  · intro hne
+    rw [h2]
+    rcases hm.2.2 with h | h
+    · cases strings with
+      | nil => exact absurd rfl hne
+      | cons s rest =>
+        have hs := hfit s (by simp)
+        exact ⟨s, by simp, by omega⟩
+    · obtain ⟨s, hs, hsl⟩ := List.mem_map.mp h
+      exact ⟨s, hs, hsl⟩
+  · intro he; rw [h2, he]; rfl
+
+/-- D27 for `fsarray`: `fsarray(['\x1b[31mxy\x1b[39m'])` is 12 columns wide (the raw length of the str) and its row
+    shows two RED cells - not the str's twelve characters, unformatted. -/
+theorem C04_D27_fsarray :
+    ((fsarray 4300 [.str [ESC, '[', '3', '1', 'm', 'x', 'y', ESC, '[', '3', '9', 'm']] none {}).toOption.map
+        fun a => (a.numColumns, a.rows.map cells))
+      = some (12, [[('x', { fg := some 1 }), ('y', { fg := some 1 })]]) := by decide +kernel
+
+/-- `FSArray(num_rows, num_columns, *args)`: `num_rows` rows, all blank, none wider than the array. -/
+theorem C04_init (n w : Nat) (atts : Atts) :
+    WF (FSArr.init n w atts) ∧ (FSArr.init n w atts).rows.length = n ∧ (FSArr.init n w atts).numColumns = w ∧
+      ∀ r c, grid (FSArr.init n w atts) r c = blankCell := by
+  refine ⟨?_, by simp [FSArr.init], rfl, ?_⟩
+  · intro f hf
+    simp only [FSArr.init, List.mem_replicate] at hf
+    rw [hf.2]; simp [blankRow]
+  · intro r c
+    simp only [grid, FSArr.init, List.getElem?_replicate]
+    split
+    · rename_i f hf
+      split at hf
+      · cases hf; exact rowCell_blankRow atts c
+      · cases hf
+    · rfl
+
+/-- Height, for EVERY value and column subscript, also when the call raises: after `a[r0:r1, c] = value` the array
+    has `max height r1` rows. The code extends `rows` with blank rows BEFORE it validates, so a rejected assignment
+    can leave the array taller; "changes no cell" (`C04_error_unchanged`) is read on `grid`, where the new rows show
+    what the cells below the array showed before: blank. -/
+theorem C04_height (md : Nat) (a : FSArr) (r0 r1 : Nat) (c : Index) (value : Block) (hr : r0 ≤ r1) :
+    (a.setRegion md (.slice (some (r0 : Int)) (some (r1 : Int))) c value).1.rows.length = max a.rows.length r1 := by
+  unfold FSArr.setRegion
+  rw [normalizeSlice_nat]
+  simp only []
+  have hext : ({ a with rows := a.rows ++ List.replicate (r1 - a.rows.length) (blankRow a.blankAtts) } : FSArr)
+      = a.extended r1 := rfl
+  rw [hext]
+  have hrows1 : (a.extended r1).rows = a.rows ++ List.replicate (r1 - a.rows.length) (blankRow a.blankAtts) := rfl
+  rw [← hrows1]
+  have hE := extended_length a r1
+  split
+  · exact hE
+  · split
+    · exact hE
+    · split
+      · exact hE
+      · split
+        · exact hE
+        · rename_i hcount
+          split
+          · exact hE
+          · rename_i new hnew
+            have hlen1 : r1 ≤ (a.extended r1).rows.length := by rw [hE]; omega
+            have hsl := listSlice_length (a.extended r1).rows r0 r1 hr hlen1
+            have hn := setRows_length _ _ _ _ _ _ _ hnew
+            simp only [slicesize, Decidable.not_not] at hcount
+            simp only [List.length_append, List.length_take, List.length_drop, hn, hsl, hE]
+            omega
+
+theorem FSArray.ns_int (L i : Nat) (h : i < L) : normalizeSlice L (.int (i : Int)) = .ok (i, i + 1) := by
+  unfold normalizeSlice; simp only []; grind
+
+/-- Int subscripts: `a[r, c] = value` (`0 ≤ r`, `0 ≤ c < width`) is the assignment to the one-cell region
+    `a[r:r+1, c:c+1]` - so `C04_assign_partial`, `C04_reject_partial`, `C04_height`, ... apply with `r1 = r0+1`,
+    `c1 = c0+1` (see the two corollaries). `r < sys.maxsize` is `normalize_slice(sys.maxsize, r)`'s range check. -/
+theorem C04_int_subscript (md : Nat) (a : FSArr) (r c : Nat) (value : Block) (hr : r < maxsize)
+    (hc : c < a.numColumns) :
+    a.setRegion md (.int (r : Int)) (.int (c : Int)) value =
+      a.setRegion md (.slice (some (r : Int)) (some ((r + 1 : Nat) : Int)))
+        (.slice (some (c : Int)) (some ((c + 1 : Nat) : Int))) value := by
+  unfold FSArr.setRegion
+  rw [FSArray.ns_int _ _ hr, FSArray.ns_int _ _ hc, normalizeSlice_nat, normalizeSlice_nat]
+
+/-- `a[r, c] = value` with a column outside the array raises IndexError and changes no cell. -/
+theorem C04_int_col_out_of_range (md : Nat) (a : FSArr) (r c : Nat) (value : Block) (hr : r < maxsize)
+    (hc : a.numColumns ≤ c) :
+    (a.setRegion md (.int (r : Int)) (.int (c : Int)) value).2 = .error .indexError ∧
+      ∀ r' c', grid (a.setRegion md (.int (r : Int)) (.int (c : Int)) value).1 r' c' = grid a r' c' := by
+  have h : (a.setRegion md (.int (r : Int)) (.int (c : Int)) value).2 = .error .indexError := by
+    unfold FSArr.setRegion
+    rw [FSArray.ns_int _ _ hr]
+    have : normalizeSlice a.numColumns (.int (c : Int)) = .error .indexError := by
+      unfold normalizeSlice; simp only []; grind
+    simp only [this]
+  exact ⟨h, C04_error_unchanged md a _ _ value _ h⟩
+
+/-- `a[r, c] = value` with one item of at most one character (e.g. `a[r, c] = 'x'`): cell (r, c) shows it (blank for
+    an empty item), every other cell is unchanged, the array has `max height (r+1)` rows. -/
+theorem C04_assign_int_partial (md : Nat) (a : FSArr) (r c : Nat) (value : Block) (it : Operand)
+    (hw : WF a) (hr : r < maxsize) (hc : c < a.numColumns) (hitems : value.items = [it]) (hfit : it.rawLen ≤ 1)
+    (hesc : it.EscFree) :
+    ∃ a', a.setRegion md (.int (r : Int)) (.int (c : Int)) value = (a', .ok ()) ∧
+      (∀ r' c', grid a' r' c' = C04_paint (grid a) r (r + 1) c (c + 1) [it.cells] r' c') ∧
+      a'.rows.length = max a.rows.length (r + 1) ∧ WF a' ∧ a'.numColumns = a.numColumns := by
+  rw [C04_int_subscript md a r c value hr hc]
+  have := C04_assign_partial md a r (r + 1) c (c + 1) value hw (by omega) (by omega) (by omega)
+    (by rw [hitems]; simp) (by rw [hitems]; simpa using hfit) (by omega) (by rw [hitems]; simpa using hesc)
+  rw [hitems] at this
+  simpa using this
+
+/-- `a[r, c] = value` is rejected - raises, no cell changes - when the value has not exactly one item, or its item
+    is longer than one character and the existing row continues past column `c` or `c + len` exceeds the width. -/
+theorem C04_reject_int_partial (md : Nat) (a : FSArr) (r c : Nat) (value : Block)
+    (hr : r < maxsize) (hc : c < a.numColumns)
+    (hbad : value.items.length ≠ 1 ∨
+      ∃ (it : Operand), value.items[0]? = some it ∧ it.rawLen > 1 ∧ it.EscFree ∧
+        (rowLen a r > c + 1 ∨ c + it.rawLen > a.numColumns)) :
+    ∃ e, (a.setRegion md (.int (r : Int)) (.int (c : Int)) value).2 = .error e ∧
+      ∀ r' c', grid (a.setRegion md (.int (r : Int)) (.int (c : Int)) value).1 r' c' = grid a r' c' := by
+  rw [C04_int_subscript md a r c value hr hc]
+  apply C04_reject_partial md a r (r + 1) c (c + 1) value (by omega) (by omega)
+  rcases hbad with h | ⟨it, h1, h2, h3, h4⟩
+  · left; omega
+  · right; exact ⟨0, it, h1, by omega, h3, by simpa using h4⟩
+
+/-- Reading rows: `a[r0:r1]` is the list of stored rows `r0 ≤ r < min r1 height`. -/
+theorem C04_read_rows (a : FSArr) (r0 r1 : Nat) :
+    a.getitem1 (.slice (some (r0 : Int)) (some (r1 : Int))) = .ok (.rows ((a.rows.take r1).drop r0)) := by
+  simp only [FSArr.getitem1, normalizeSlice_nat, bind, Except.bind, pure, Except.pure, listSlice]
 
 /-- One region assignment `a[r0:r1, c0:c1] = value` of a history. -/
 structure C04_Asg where
@@ -377,75 +557,124 @@ def C04_Asg.valid (W : Nat) (s : C04_Asg) : Prop :=
 
 /-- The block fits the region (decidable form). -/
 def C04_Asg.fits (s : C04_Asg) : Bool :=
-  decide (s.value.items.length = s.r1 - s.r0) && s.value.items.all fun it => decide (len it.2 ≤ s.c1 - s.c0)
+  decide (s.value.items.length = s.r1 - s.r0) && s.value.items.all fun it => decide (it.rawLen ≤ s.c1 - s.c0)
 
-def C04_call (a : FSArr) (s : C04_Asg) : FSArr × Except PyErr Unit :=
-  a.setRegion (.slice (some (s.r0 : Int)) (some (s.r1 : Int))) (.slice (some (s.c0 : Int)) (some (s.c1 : Int))) s.value
+/-- The block does not fit, the region has cells, and the case is not in D19's footprint: exactly the hypotheses of
+    `C04_reject_partial` for the array `a` the assignment meets (a predicate on the INPUT: the block, the region and
+    the stored lengths of the rows it meets - not on the outcome). -/
+def C04_Asg.rejectable (a : FSArr) (s : C04_Asg) : Prop :=
+  s.r0 < s.r1 ∧ s.c0 < s.c1 ∧
+    (s.value.items.length ≠ s.r1 - s.r0 ∨
+      ∃ (i : Nat) (it : Operand), s.value.items[i]? = some it ∧ it.rawLen > s.c1 - s.c0 ∧ it.EscFree ∧
+        (rowLen a (s.r0 + i) > s.c1 ∨ s.c0 + it.rawLen > a.numColumns))
+
+def C04_call (md : Nat) (a : FSArr) (s : C04_Asg) : FSArr × Except PyErr Unit :=
+  a.setRegion md (.slice (some (s.r0 : Int)) (some (s.r1 : Int))) (.slice (some (s.c0 : Int)) (some (s.c1 : Int))) s.value
 
 /-- The array after a history (exceptions are caught by the caller; the array lives on). -/
-def C04_run (a : FSArr) (hist : List C04_Asg) : FSArr := hist.foldl (fun a s => (C04_call a s).1) a
+def C04_run (md : Nat) (a : FSArr) (hist : List C04_Asg) : FSArr := hist.foldl (fun a s => (C04_call md a s).1) a
 
 /-- The picture the property prescribes after a history: fitting blocks are painted, the others change nothing. -/
 def C04_specGrid (g : Nat → Nat → Cell) : List C04_Asg → Nat → Nat → Cell
   | [] => g
   | s :: rest =>
-    C04_specGrid (if s.fits then C04_paint g s.r0 s.r1 s.c0 s.c1 (s.value.items.map fun it => cells it.2) else g) rest
+    C04_specGrid (if s.fits then C04_paint g s.r0 s.r1 s.c0 s.c1 (s.value.items.map Operand.cells) else g) rest
 
-/-- Histories: after any sequence of region assignments, each of which fits its region, has a region without cells,
-    or raises, the array
-    shows exactly the prescribed picture, no row is wider than the array and the width is unchanged.
-    (That an ill-fitting block does raise is `C04_reject_partial`; where it does not - D19 - the hypothesis
-    fails for that step.) -/
-theorem C04_history (a : FSArr) (hist : List C04_Asg) (hw : WF a)
+/-- The height the property prescribes: every assignment (accepted or rejected) reaches down to its `r1`. -/
+def C04_specHeight (h : Nat) : List C04_Asg → Nat
+  | [] => h
+  | s :: rest => C04_specHeight (max h s.r1) rest
+
+/-- Histories: after any sequence of region assignments in the statement's domain, each of which EITHER fits its
+    region (with ESC-free str rows), OR has a region without cells, OR is `rejectable` (does not fit, outside D19's
+    footprint) - all three are predicates on the inputs and the array met, none on the call's outcome - the array
+    shows exactly the prescribed picture, has the prescribed height, no row is wider than the array and the width is
+    unchanged. (Steps in the footprint of D19 or D27 satisfy none of the three.) -/
+theorem C04_history (md : Nat) (a : FSArr) (hist : List C04_Asg) (hw : WF a)
     (hv : ∀ s ∈ hist, s.valid a.numColumns)
     (hs : ∀ (pre post : List C04_Asg) (s : C04_Asg), hist = pre ++ s :: post →
-      s.fits = true ∨ (s.r0 = s.r1 ∨ s.c0 = s.c1) ∨ ∃ e, (C04_call (C04_run a pre) s).2 = .error e) :
-    (∀ r c, grid (C04_run a hist) r c = C04_specGrid (grid a) hist r c) ∧
-    WF (C04_run a hist) ∧ (C04_run a hist).numColumns = a.numColumns := by
+      (s.fits = true ∧ ∀ it ∈ s.value.items, it.EscFree) ∨ (s.r0 = s.r1 ∨ s.c0 = s.c1) ∨
+        s.rejectable (C04_run md a pre)) :
+    (∀ r c, grid (C04_run md a hist) r c = C04_specGrid (grid a) hist r c) ∧
+    (C04_run md a hist).rows.length = C04_specHeight a.rows.length hist ∧
+    WF (C04_run md a hist) ∧ (C04_run md a hist).numColumns = a.numColumns := by
   induction hist generalizing a with
-  | nil => exact ⟨fun _ _ => rfl, hw, rfl⟩
+  | nil => exact ⟨fun _ _ => rfl, rfl, hw, rfl⟩
   | cons s rest ih =>
     have hvs := hv s (by simp)
-    have hinv := C04_width_invariant a (.slice (some (s.r0 : Int)) (some (s.r1 : Int)))
+    have hinv := C04_width_invariant md a (.slice (some (s.r0 : Int)) (some (s.r1 : Int)))
       (.slice (some (s.c0 : Int)) (some (s.c1 : Int))) s.value hw
-    have hgrid : grid (C04_call a s).1 =
-        (if s.fits then C04_paint (grid a) s.r0 s.r1 s.c0 s.c1 (s.value.items.map fun it => cells it.2)
+    have hheight := C04_height md a s.r0 s.r1 (.slice (some (s.c0 : Int)) (some (s.c1 : Int))) s.value hvs.1
+    have hgrid : grid (C04_call md a s).1 =
+        (if s.fits then C04_paint (grid a) s.r0 s.r1 s.c0 s.c1 (s.value.items.map Operand.cells)
          else grid a) := by
       funext r c
+      have hcase := hs [] rest s rfl
       by_cases hf : s.fits = true
       · rw [if_pos hf]
-        simp only [C04_Asg.fits, Bool.and_eq_true, decide_eq_true_eq, List.all_eq_true] at hf
-        obtain ⟨a', h1, h2, _⟩ := C04_assign a s.r0 s.r1 s.c0 s.c1 s.value hw hvs.1 hvs.2.1 hvs.2.2.1 hf.1
-          (fun it hit => hf.2 it hit) hvs.2.2.2
-        simp only [C04_call, h1, h2]
+        rcases hcase with ⟨_, hesc⟩ | hempty | hrej
+        · simp only [C04_Asg.fits, Bool.and_eq_true, decide_eq_true_eq, List.all_eq_true] at hf
+          obtain ⟨a', h1, h2, _⟩ := C04_assign_partial md a s.r0 s.r1 s.c0 s.c1 s.value hw hvs.1 hvs.2.1 hvs.2.2.1
+            hf.1 (fun it hit => hf.2 it hit) hvs.2.2.2 hesc
+          simp only [C04_call, h1, h2]
+        · -- a region without cells: nothing is painted, nothing changes
+          have h0 := (C04_empty_region_noop md a s.r0 s.r1 s.c0 s.c1 s.value hempty).2 r c
+          have : ¬ (s.r0 ≤ r ∧ r < s.r1 ∧ s.c0 ≤ c ∧ c < s.c1) := by omega
+          simp only [C04_call, h0, C04_paint, if_neg this]
+        · -- fits and rejectable exclude each other
+          exfalso
+          simp only [C04_Asg.fits, Bool.and_eq_true, decide_eq_true_eq, List.all_eq_true] at hf
+          obtain ⟨_, _, hbad⟩ := hrej
+          rcases hbad with hbad | ⟨i, it, hit, hlen, _, _⟩
+          · exact hbad hf.1
+          · have hi : i < s.value.items.length := by
+              rcases Nat.lt_or_ge i s.value.items.length with h | h
+              · exact h
+              · rw [List.getElem?_eq_none h] at hit; cases hit
+            have hmem : it ∈ s.value.items := by
+              rw [List.getElem?_eq_getElem hi] at hit
+              cases hit; exact List.getElem_mem hi
+            have := hf.2 it hmem
+            omega
       · rw [if_neg hf]
-        rcases hs [] rest s rfl with h | h | ⟨e, he⟩
+        rcases hcase with ⟨h, _⟩ | h | hrej
         · exact absurd h hf
-        · exact (C04_empty_region_noop a s.r0 s.r1 s.c0 s.c1 s.value h).2 r c
-        · exact C04_error_unchanged a _ _ s.value e he r c
-    have := ih (C04_call a s).1 hinv.1
+        · exact (C04_empty_region_noop md a s.r0 s.r1 s.c0 s.c1 s.value h).2 r c
+        · obtain ⟨h1, h2, hbad⟩ := hrej
+          obtain ⟨e, _, hun⟩ := C04_reject_partial md a s.r0 s.r1 s.c0 s.c1 s.value h1 h2 hbad
+          exact hun r c
+    have := ih (C04_call md a s).1 hinv.1
       (fun t ht => by
         have := hv t (by simp [ht])
         simpa only [C04_call, hinv.2] using this)
       (fun pre post t h => by
         have := hs (s :: pre) post t (by simp [h])
         simpa only [C04_run, List.foldl_cons] using this)
-    refine ⟨?_, this.2.1, ?_⟩
+    refine ⟨?_, ?_, this.2.2.1, ?_⟩
     · intro r c
       have h1 := this.1 r c
       simp only [C04_run, List.foldl_cons, C04_specGrid] at h1 ⊢
       rw [h1, hgrid]
-    · have h2 := this.2.2
+    · have h2 := this.2.1
+      simp only [C04_run, List.foldl_cons, C04_specHeight] at h2 ⊢
+      rw [h2]
+      simp only [C04_call, hheight]
+    · have h2 := this.2.2.2
       simp only [C04_run, List.foldl_cons] at h2 ⊢
       rw [h2]; exact hinv.2
 
-/-- Non-vacuity of `C04_history`: a fitting assignment followed by a rejected one on a 2x3 array. -/
+/-- Non-vacuity of `C04_history`: a fitting assignment followed by a rejectable one (and it is rejected) on a 2x3
+    array. -/
 example :
-    let s1 : C04_Asg := ⟨0, 2, 0, 3, ⟨false, [(true, [⟨['a', 'b', 'c'], {}⟩]), (true, [⟨['d'], {}⟩])]⟩⟩
-    let s2 : C04_Asg := ⟨0, 1, 0, 1, ⟨false, [(true, [⟨['x', 'z'], {}⟩])]⟩⟩
+    let s1 : C04_Asg := ⟨0, 2, 0, 3, ⟨false, [.str ['a', 'b', 'c'], .str ['d']]⟩⟩
+    let s2 : C04_Asg := ⟨0, 1, 0, 1, ⟨false, [.str ['x', 'z']]⟩⟩
     s1.fits = true ∧ s2.fits = false ∧
-    (C04_call (C04_run (FSArr.init 2 3 {}) [s1]) s2).2 = .error .assertionError ∧
-    (C04_run (FSArr.init 2 3 {}) [s1, s2]).rows.map cells = [[('a', {}), ('b', {}), ('c', {})], [('d', {})]] := by
+    (C04_call 4300 (C04_run 4300 (FSArr.init 2 3 {}) [s1]) s2).2 = .error .assertionError ∧
+    (C04_run 4300 (FSArr.init 2 3 {}) [s1, s2]).rows.map cells = [[('a', {}), ('b', {}), ('c', {})], [('d', {})]] := by
   decide +kernel
+example : (⟨0, 1, 0, 1, ⟨false, [.str ['x', 'z']]⟩⟩ : C04_Asg).rejectable
+    (C04_run 4300 (FSArr.init 2 3 {}) [⟨0, 2, 0, 3, ⟨false, [.str ['a', 'b', 'c'], .str ['d']]⟩⟩]) :=
+  ⟨by decide, by decide, Or.inr ⟨0, .str ['x', 'z'], rfl, by decide,
+    (by show ¬ [ESC, '['] <:+: ['x', 'z']; decide), Or.inl (by decide +kernel)⟩⟩
 
 end Curtsies
